@@ -191,6 +191,8 @@ LEVEL_TEXT['C08'] += ' Added (unit vfork): a process forked in the simulated sys
 TECH['C08'] += ' + Process::fork_from of the simulated system (field-by-field inheritance contract)'
 LEVEL_TEXT['C17'] += ' Added (unit simpleparse): Parser::simple_command offers every token in command position exactly while no word of the command has been collected and reports AliasSubstituted to its caller only when nothing had been consumed.'
 TECH['C17'] += ' + Parser::simple_command (loop invariant over a ghost monitor of the offers made)'
+LEVEL_TEXT['C18'] += ' Added (unit cmdline): Parser::command_line parses one list, takes at most the one newline that ends the line (plus the here-document contents after it) and looks at nothing beyond it.'
+TECH['C18'] += ' + Parser::command_line / newline_and_here_doc_contents (monitor of tokens peeked or taken beyond the newline)'
 
 def main():
     checks = []
